@@ -128,7 +128,9 @@ def free_scene(draw, kindA, kindB, rot_classes=None, margin=False,
 @st.composite
 def aligned_scene(draw, kindA, kindB, margin=False, depth_fractions=None, gaps=None, **kw):
     """signed-permutation rotations, lattice positions, integer-ish sizes"""
-    isz = st.sampled_from([1.0, 2.0, 0.5, 4.0])
+    isz = st.sampled_from([1.0, 2.0, 0.5, 4.0, 0.25])
+    quarter = st.integers(-12, 12).map(lambda i: 0.25 * i)
+    pos_quarter = st.tuples(quarter, quarter, quarter).map(list)
 
     def mk(kind):
         s = draw(specs(kind, rot_classes=("identity", "perm"), margin=margin, **kw))
@@ -150,7 +152,7 @@ def aligned_scene(draw, kindA, kindB, margin=False, depth_fractions=None, gaps=N
                 s["vertices"] = V.tolist()
             s["vcls"] = "lattice"
         if "p" in s:
-            s["p"] = [v * 0.5 for v in draw(atoms.pos_lattice)]
+            s["p"] = draw(st.one_of(atoms.pos_lattice.map(lambda v: [x * 0.5 for x in v]), pos_quarter))
         return s
     sa = mk(kindA)
     sb = mk(kindB)
